@@ -1,5 +1,6 @@
 (* C06 — every XFLATE stream is a plain DEFLATE stream with the same content.
    The DEFLATE decoder is Flate.Spec.inflate (RFC 1951 model). *)
+From V Require Import XFlate.Reader XFlate.RoundTripStmt Flate.Depth Flate.Compose Meta.Deflate Meta.DeflateStream.
 From V Require Import Base.Prelude Base.Prog Base.ProgThms Meta.Model Flate.Spec Flate.Thms
   XFlate.Index XFlate.Writer XFlate.Thms XFlate.Witness.
 
@@ -30,3 +31,29 @@ Theorem deflate_verdict_is_local : forall d input trailer,
   res_pos (inflate_d d (input ++ trailer)) = res_pos (inflate_d d input).
 Proof. exact inflate_trailing. Qed.
 Print Assumptions deflate_verdict_is_local.
+
+(* ---- composition: why a concatenation of chunks, index blocks and a footer is ONE stream ---- *)
+(* [nonfinal_blocks c = Some d]: c is, for the RFC 1951 model, a sequence of complete blocks
+   none of which carries the final bit, ending exactly at its last byte, with output d
+   (XFlate/RoundTripStmt.v; this is the contract on compress/flate output after a Flush,
+   re-checked on every chunk of every run). Such sequences compose ... *)
+Theorem deflate_nonfinal_block_sequences_compose : scan_app_stmt.
+Proof. exact scan_app. Qed.
+Print Assumptions deflate_nonfinal_block_sequences_compose.
+
+(* ... and followed by a complete stream (then anything) the whole decodes to the
+   concatenation and ends exactly after that stream *)
+Theorem deflate_nonfinal_blocks_then_stream : scan_then_stream_stmt.
+Proof. exact scan_then_stream. Qed.
+Print Assumptions deflate_nonfinal_blocks_then_stream.
+
+(* every index block the Writer emits (any payload) is such a sequence with NO output, and
+   the footer (FinalStream) is a complete stream with no output: the only final bit of an
+   XFLATE stream is the footer's *)
+Theorem xflate_index_blocks_are_empty_nonfinal_deflate : meta_nonfinal_blocks_stmt.
+Proof. exact meta_nonfinal_blocks. Qed.
+Print Assumptions xflate_index_blocks_are_empty_nonfinal_deflate.
+
+Theorem xflate_footer_is_the_final_empty_deflate_block : meta_footer_chunk_stmt.
+Proof. exact meta_footer_chunk. Qed.
+Print Assumptions xflate_footer_is_the_final_empty_deflate_block.
